@@ -140,7 +140,9 @@ func NewFieldBuildContext(m MessageBuildContext, field *FieldDescriptorProtoExt,
 // NewMapValueFieldBuildContext creates FieldBuildContext for MapValueField
 func NewMapValueFieldBuildContext(c *FieldBuildContext, field *FieldDescriptorProtoExt, index int, typ string) (*FieldBuildContext, error) {
 	// We've gen.GoType always returns *type here, have to override
-	i := strings.LastIndex(typ, "]")
+	// Map keys are always strings: the value type starts after the first "]"
+	// (the last one would cut a "[]byte" value type down to "byte")
+	i := strings.Index(typ, "]")
 	t := typ[i+1:]
 
 	return &FieldBuildContext{
